@@ -748,8 +748,8 @@ type vfC17World struct {
 	patterns   []vfC17Pattern
 	generation int
 	d          *DNSFilter
-	handlers map[string]http.HandlerFunc
-	stub     *vfC17Stub
+	handlers   map[string]http.HandlerFunc
+	stub       *vfC17Stub
 
 	// locs remembers every location by its raw string.
 	locs map[string]vfC17Loc
